@@ -21,6 +21,9 @@ func (v *Value) Load() interface{} {
 	return v.v.Load()
 }
 
+// RawLoad reads the value without a scheduling point (harness accessors only).
+func (v *Value) RawLoad() interface{} { return v.v.Load() }
+
 func (v *Value) Store(val interface{}) {
 	vsched.Point(vsched.KStore, unsafe.Pointer(v))
 	v.v.Store(val)
